@@ -23,7 +23,7 @@ man = {
               "serves_properties": sorted(have),
               "kind_free_text": "contract-based deductive verification: CBMC 6.11 code contracts (goto-instrument --dfcc --enforce-contract/--replace-call-with-contract/--apply-loop-contracts) on the real /repo C files, native ASan replay of counterexamples"}],
  "checks": [], "not_applicable": [],
- "notes": "See DESIGN.md. Exit 2 = undecided (timeout/tool error), never reported as VIOLATION. Grades: P = unbounded (loop invariants / loop-free), Pb/B = size-capped or unwound (reported under coverage.bounded, never counted in obligations/discharged)."
+ "notes": "See DESIGN.md. Exit 2 = undecided (timeout/tool error), never reported as VIOLATION. Grades: P = unbounded (loop invariants / loop-free), Pb/B = size-capped or unwound (reported under coverage.bounded, never counted in obligations/discharged). Quick tier = per property the cheapest units within a CPU budget (quick_plan.json, vp/mkplan.py; each evidence file lists the thorough-only units); thorough tier = every registered unit plus the NNI_ASSERT-enabled pass. A unit that hits its time limit is decided again with 3x the limit before the check reports undecided."
 }
 for i in ids:
     meta = props[i]
